@@ -5,6 +5,10 @@ import Dmn.Lemmas.BifsStatsStddev
 import Dmn.Lemmas.BifsStatsSort
 import Dmn.Lemmas.BifsStatsExactStddev
 import Dmn.Lemmas.BifsNumber
+import Dmn.Lemmas.BifsNumberSep
+import Dmn.Lemmas.BifsSignatures
+import Dmn.Lemmas.BifsString
+import Dmn.Lemmas.DecPlain
 
 /-!
 # C08 — built-in functions return their specified value for all arguments; named = positional
@@ -654,6 +658,61 @@ theorem named_single_item :
       ∧ callNamed (core .checked) "sum" (bindNames ["list"] [n1 1]) = some (.ok (n1 1)) := by
   refine ⟨?_, ?_, ?_⟩ <;> rfl
 
+/-! ### the parameter names of the code (regenerated) and of the specification
+
+`codeSignatures` (`Dmn/Model/BifEval.lean`) is read off the regenerated table `named`: one signature per `core::` call
+of every arm of `named::evaluate_bif`, with the parameter names that arm looks up.  An edited name constant, a swapped
+`get_param` or a changed arm of either table changes the lists below and breaks the obligations. -/
+
+/-- Named invocation = positional invocation for EVERY named form the code has (84 forms of 57 built-ins today, `list
+contains(list:, match:)` and the range functions included), every argument tuple and every behaviour of the `core::`
+functions: the two 70-arm tables are the same function up to the parameter names. No exclusion. -/
+theorem named_eq_positional_code_names (core : Core) (sig : Signature) (hsig : sig ∈ codeSignatures)
+    (args : List Value) (h1 : sig.required ≤ args.length) (h2 : args.length ≤ sig.params.length) :
+    callNamed core sig.name (bindNames sig.params args) = callPositional core sig.name args :=
+  named_eq_positional_partial core sig (List.all_eq_true.mp codeSignatures_all_agree sig hsig) args h1 h2
+
+example : (⟨"list contains", ["list", "match"], 2⟩ : Signature) ∈ codeSignatures := by decide
+example : (⟨"substring", ["string", "start position"], 2⟩ : Signature) ∈ codeSignatures := by decide
+
+/-- The names of the code against the names of the specification (DMN 1.3 tables 72-80, every signature read at each
+admissible number of arguments): the specification's forms the code does not have are `list contains(list, element)`
+(F2b) and `product(list)` (not implemented: null in both tables); outside the range functions, the only named form of
+the code the specification does not have is `list contains(list, match)`. -/
+theorem code_names_vs_specification :
+    specFormsNotInCode = [("list contains", ["list", "element"]), ("product", ["list"])] ∧
+    codeFormsNotInSpec.filter (fun s => !["after", "before", "coincides"].contains s.1)
+      = [("list contains", ["list", "match"])] :=
+  ⟨specFormsNotInCode_eq, codeFormsNotInSpec_eq⟩
+
+/-- The second sentence of the property with the specification's parameter names, for every built-in but `list
+contains` (F2b, `named_eq_positional_counterexample`): the named invocation with the names of the specification's table
+equals the positional invocation, for every argument tuple of an admissible length. -/
+theorem named_eq_positional (core : Core) (sig : Signature) (hsig : sig ∈ Spec.signatures)
+    (hne : sig.name ≠ "list contains") (args : List Value)
+    (h1 : sig.required ≤ args.length) (h2 : args.length ≤ sig.params.length) :
+    callNamed core sig.name (bindNames sig.params args) = callPositional core sig.name args := by
+  by_cases hag : agrees sig = true
+  · exact named_eq_positional_partial core sig hag args h1 h2
+  · exfalso
+    have hmem : (sig.name, sig.params) ∈ offending := by
+      unfold offending
+      exact List.mem_map.mpr ⟨sig, List.mem_filter.mpr ⟨hsig, by simpa using hag⟩, rfl⟩
+    rw [offending_pinned] at hmem
+    simp only [List.mem_cons, List.mem_nil_iff, or_false, Prod.mk.injEq] at hmem
+    exact hne hmem.1
+
+example : (⟨"substring", ["string", "start position", "length"], 2⟩ : Signature) ∈ Spec.signatures ∧
+    (2 : Nat) ≤ [Value.str "abc", n1 2].length ∧ [Value.str "abc", n1 2].length ≤ 3 := by decide
+
+/-- `append`, `concatenate` and `union` take any number of arguments and have no named form: whatever names are
+written, the named invocation is null. -/
+theorem no_named_form (core : Core) (nargs : NamedArgs) :
+    ∀ f ∈ ["append", "concatenate", "union"], callNamed core f nargs = nullR := by
+  intro f hf
+  simp only [List.mem_cons, List.mem_nil_iff, or_false] at hf
+  rcases hf with rfl | rfl | rfl <;> rfl
+
 theorem bif_resolution (scope : Scope) (name : String) :
     (scope.getEntry name = none → resolveName names scope name = (if names.contains name then .bif name else .null))
       ∧ (∀ v, scope.getEntry name = some v → resolveName names scope name = v) := by
@@ -982,6 +1041,121 @@ theorem core_number_literal_spec (text : String) (d : Dec) (h : Spec.parseFeelNu
   constructor <;> simp [core_number, numberValue, Spec.numberV, h, h2]
 
 example : ∃ d, Spec.parseFeelNumber ['-', '1', '.', '5'] = some d := ⟨_, rfl⟩
+
+/-! ### `number` with grouping and decimal separators: the whole argument space
+
+`core::number` checks the kinds of the separators, removes the grouping separator (`str::replace`), writes the decimal
+separator as a period and hands the text to the reader.  Everything but the reader is the specification, for EVERY
+argument triple; the reader accepts every FEEL literal with the specified value (`parseNumber_of_feel_literal`) and
+more (finding F25). -/
+
+/-- `text.replace(g, "")` / `text.replace(d, ".")` for a one-character separator, at character level: exactly the
+characters equal to the separator are removed / rewritten, whatever the text. -/
+theorem separator_replace_chars (g d : Char) (cs : List Char) :
+    replaceAllChars [g] [] cs = cs.filter (fun c => c != g) ∧
+    replaceAllChars [d] ['.'] cs = cs.map (fun c => if c = d then '.' else c) :=
+  ⟨replaceAllChars_remove g cs, replaceAllChars_map d '.' cs⟩
+
+/-- `number(from, grouping separator, decimal separator)` for ALL argument values: the code is the specification
+`Spec.numberV` with its own reader in the place of the FEEL literal grammar (`Spec.numberV` is, by definition,
+`Spec.numberWith Spec.parseFeelNumber`): same domain of the separators (a string among `" " . ,` / `. ,` or null,
+not both the same), same removal and rewriting of characters, null for a text the reader rejects. -/
+theorem core_number_reader_spec (a b c : Value) :
+    core_number a b c = .ok (Spec.numberWith parseNumber a b c) ∧
+    Spec.numberV a b c = Spec.numberWith Spec.parseFeelNumber a b c := by
+  refine ⟨?_, rfl⟩
+  simp only [core_number, numberValue_eq]
+
+/-- Whenever the specification gives a number, the code gives that number - for every text, every grouping and
+every decimal separator. -/
+theorem core_number_spec_of_number (a b c : Value) (d : Dec) (h : Spec.numberV a b c = .num d) :
+    core_number a b c = .ok (.num d) := by
+  rw [(core_number_reader_spec a b c).1]
+  exact congrArg Outcome.ok (numberWith_mono _ _ parseNumber_of_feel_literal a b c d h)
+
+-- number("1 234,5", " ", ",") = 1234.5
+example : Spec.numberV (.str "1 234,5") (.str " ") (.str ",") = .num ⟨false, 12345, -1⟩ := by rfl
+
+/-- … and where the code gives null the specification gives null: a separator of the wrong kind, the same separator
+twice, a text that is no number. -/
+theorem core_number_null_spec (a b c : Value) (h : core_number a b c = .ok .null) : Spec.numberV a b c = .null := by
+  cases hs : Spec.numberV a b c with
+  | num d => rw [core_number_spec_of_number a b c d hs] at h; cases h
+  | null => rfl
+  | _ => exact absurd hs (by
+      unfold Spec.numberV
+      dsimp only
+      split
+      · split
+        · simp
+        · split <;> simp
+      · simp)
+
+example : core_number (.str "1.234,5") (.str ".") (.str ".") = .ok .null := by rfl
+
+-- FULL STATEMENT (not provable of the current code, finding F25):
+--   ∀ a b c, core_number a b c = .ok (Spec.numberV a b c)
+/-- F25: the reader of the code accepts texts that are no FEEL numeric literal (an exponent, a plus sign, a trailing
+period); `number("1e3", null, null)` is 1000, the specification says null. -/
+theorem core_number_counterexample :
+    core_number (.str "1e3") .null .null = .ok (.num ⟨false, 1, 3⟩) ∧ Spec.numberV (.str "1e3") .null .null = .null := by
+  constructor <;> rfl
+
+/-! ## `string`: the printed form of every value kind of the model
+
+`core::string` returns null for null, the string itself for a string and `to_feel_string()` for everything else.
+Numbers are written by `Display for FeelNumber`, the printer of property C07: the model takes `D128.plainSpec`, the
+text that printer is PROVED to produce (`D128.plain_total`), so `string(n)` is tied to the C07 model by a theorem, not by
+a second transcription.  Lists and contexts are written item by item (`feelString`), a string item quoted with its
+quotation marks escaped, a null item as `null`; temporal values, ranges and functions stay outside (C14 prints the
+temporal values; `core_string` is `none` on them and the correspondence skips them). -/
+
+/-- null, strings and booleans -/
+theorem core_string_scalars :
+    core_string .null = some (.ok .null) ∧ (∀ s, core_string (.str s) = some (.ok (.str s))) ∧
+    core_string (.bool true) = some (.ok (.str "true")) ∧ core_string (.bool false) = some (.ok (.str "false")) :=
+  ⟨rfl, fun _ => rfl, by rfl, by rfl⟩
+
+/-- `string(n)` for every number: what the C07 printer model `D128.plain` prints, which is the plain rendering
+`D128.plainSpec` (sign, digits, period; never an exponent; trailing zeros kept). -/
+theorem core_string_number (d : Dec) (hwf : D128.WF ⟨d.neg, d.coeff, d.exp⟩) :
+    core_string (.num d) = (D128.plain ⟨d.neg, d.coeff, d.exp⟩).map (fun t => .ok (Spec.strV t)) ∧
+    core_string (.num d) = some (.ok (Spec.strV (D128.plainSpec ⟨d.neg, d.coeff, d.exp⟩))) := by
+  rw [D128.plain_eq _ hwf]
+  constructor <;> rfl
+
+
+/-- how an item of a list or an entry of a context is written -/
+theorem feelString_item :
+    feelString .null = some ['n', 'u', 'l', 'l'] ∧
+    feelString (.bool true) = some ['t', 'r', 'u', 'e'] ∧ feelString (.bool false) = some ['f', 'a', 'l', 's', 'e'] ∧
+    (∀ d, feelString (.num d) = some (D128.plainSpec ⟨d.neg, d.coeff, d.exp⟩)) ∧
+    (∀ s, feelString (.str s) = some ('"' :: s.toList.flatMap (fun c => if c = '"' then ['\\', '"'] else [c]) ++ ['"'])) := by
+  refine ⟨by rfl, by rfl, by rfl, fun _ => rfl, fun s => ?_⟩
+  simp [feelString, quote]
+
+/-- `string(list)`: the items as `feelString` writes them, separated by `, `, in brackets - for every list all of whose
+items have a text (`List.Forall₂`: item by item, in order). -/
+theorem core_string_list (vs : List Value) (xs : List (List Char))
+    (h : List.Forall₂ (fun v x => feelString v = some x) vs xs) :
+    core_string (.list vs) = some (.ok (Spec.strV ('[' :: List.intercalate [',', ' '] xs ++ [']']))) := by
+  have := (feelStringItems_iff vs xs).mpr h
+  simp [core_string, stringValue, feelString, this, joinSep_eq_intercalate, Spec.strV]
+
+/-- `string(context)`: `key: value` for every entry in the order of the keys, separated by `, `, in braces. -/
+theorem core_string_context (es : List (String × Value)) (xs : List (List Char))
+    (h : List.Forall₂ (fun e x => ∃ t, feelString e.2 = some t ∧ x = feelKey e.1 ++ [':', ' '] ++ t) es xs) :
+    core_string (.ctx es) = some (.ok (Spec.strV ('{' :: List.intercalate [',', ' '] xs ++ ['}']))) := by
+  have := (feelStringEntries_iff es xs).mpr h
+  simp [core_string, stringValue, feelString, this, joinSep_eq_intercalate, Spec.strV]
+
+example : D128.WF ⟨true, 150, -2⟩ := by decide
+
+example : List.Forall₂ (fun v x => feelString v = some x) [.num ⟨true, 150, -2⟩, .null] ["-1.50".toList, "null".toList] :=
+  .cons rfl (.cons rfl .nil)
+
+example : core_string (.list [.num ⟨true, 150, -2⟩, .str "a\"b", .null, .list [.bool true]])
+    = some (.ok (.str "[-1.50, \"a\\\"b\", null, [true]]")) := by rfl
 
 end Bif
 end Dmn
